@@ -148,3 +148,60 @@ def node_bits(node):
                 valid.append(val)
         return valid + [x for x in b if x not in valid]
     return b
+
+
+def decorate(schema):
+    """attribute-rich variant: every entity gets description, sinceVersion, (some) deprecated, semanticType,
+    characterEncoding where the XML dialect has the attribute.  presence='optional' on enum/set fields and an `offset`
+    on public types stay out of the alphabet (their expected trait value is not fixed by the XML or by SBE)."""
+    from ..model import ir
+    k = [0]
+
+    def nxt():
+        k[0] += 1
+        return k[0]
+
+    def deco(o, sem=False):
+        n = nxt()
+        o.desc = "D%d %s" % (n, getattr(o, "name", ""))
+        o.since = n % 4
+        if n % 3 == 0:
+            o.deprecated = 4
+        if sem and hasattr(o, "sem"):
+            o.sem = "Sem%d" % n
+
+    def deco_type(t):
+        if isinstance(t, ir.Ref):
+            n = nxt()
+            t.since = n % 4
+            return
+        deco(t, sem=True)
+        if isinstance(t, ir.T) and t.prim == "char":
+            t.char_enc = "ISO_8859_1"
+        if isinstance(t, ir.Enum):
+            t.values = [(v[0], v[1], {"description": "V%d" % nxt(), "sinceVersion": k[0] % 4}) for v in t.values]
+        if isinstance(t, ir.SetT):
+            t.choices = [(c[0], c[1], {"description": "C%d" % nxt(), "sinceVersion": k[0] % 4, "deprecated": 4}) for c in t.choices]
+        if isinstance(t, ir.Comp):
+            for m in t.members:
+                deco_type(m)
+
+    def deco_level(lv):
+        for f in lv.fields:
+            deco(f)
+        for g in lv.groups:
+            deco(g, sem=True)
+            deco_level(g)
+        for d in lv.data:
+            deco(d)
+
+    for t in schema.types:
+        if t.name in ("messageHeader", "groupSizeEncoding"):
+            continue
+        deco_type(t)
+    for m in schema.msgs:
+        deco(m, sem=True)
+        deco_level(m)
+    schema.desc = "rich \u00e9 schema"
+    schema.sem_version = "5.2-rc"
+    return schema
